@@ -7,11 +7,11 @@ export GOFLAGS=-mod=mod GOPROXY=off
 cd "$W" || exit 2
 git checkout -q -- . && git clean -fdq
 git apply --check "$M/patch.diff" || { echo "CONFIRM FAIL: patch does not apply"; exit 1; }
-bash "$M/demo.sh" "$W" >/tmp/confirm_clean.log 2>&1; rc_clean=$?
+bash "$M/demo.sh" "$W" >/tmp/confirm_$$_clean.log 2>&1; rc_clean=$?
 git apply "$M/patch.diff"
 go build ./... || { echo "CONFIRM FAIL: does not compile"; git checkout -q -- .; exit 1; }
-if ! go test -vet=off -count=1 ./... >/tmp/confirm_test.log 2>&1; then echo "CONFIRM FAIL: suite fails with patch"; grep -v '^ok' /tmp/confirm_test.log | head; git checkout -q -- .; exit 1; fi
-bash "$M/demo.sh" "$W" >/tmp/confirm_mut.log 2>&1; rc_mut=$?
+if ! go test -vet=off -count=1 ./... >/tmp/confirm_$$_test.log 2>&1; then echo "CONFIRM FAIL: suite fails with patch"; grep -v '^ok' /tmp/confirm_$$_test.log | head; git checkout -q -- .; exit 1; fi
+bash "$M/demo.sh" "$W" >/tmp/confirm_$$_mut.log 2>&1; rc_mut=$?
 git checkout -q -- . && git clean -fdq
 echo "demo clean=$rc_clean mutated=$rc_mut"
 if [ $rc_clean -eq 0 ] && [ $rc_mut -ne 0 ]; then echo "CONFIRMED"; exit 0; fi
